@@ -5,14 +5,20 @@ imports, user classes, object / model processors, plus randomly generated
 grammars; memoization on and off; all of them share textX's base-type rule
 objects), a set of model files, and several *histories*: sequences of loads from
 strings and files, valid and invalid, interleaved over the pool, optionally with
-further metamodels created in the middle of the history.
+further metamodels created in the middle of the history.  Round V: metamodels compiled from grammar *files*
+(several from the same paths, rewritten in between), model files in several directories found through the
+search path of the import provider (two providers may share the list object), options mixed within a pool and
+*probe* inputs on which the configurations of a pool disagree (letter case, white space, keyword spacing),
+every other history dwelling on one metamodel and its relatives.
 
 Implementation side (harness/c16_world.py, a server process per harness worker; a *fresh state* =
 textx and arpeggio removed from sys.modules and imported again, user classes / processors rebuilt):
   * every history runs on a fresh state in which the pool has been created;
   * reference r1: every distinct load alone on a fresh state "pool created" (DESIGN.md Reading);
   * reference r2: the load on a fresh state in which only its metamodel was created
-    (the statement, literally: "the same metamodel configuration on a fresh process state");
+    (the statement, literally: "the same metamodel configuration on a fresh process state"); for every distinct load;
+  * configuration fingerprint of every existing metamodel after every operation (parser options, compiled parser
+    model with the regular expressions of the shared base-type rules, class table) against its solo creation;
   * reference r3 (a sample): r2 once more in a really new interpreter.
 Direct oracle: each outcome inside a history (structural dump of the model incl.
 positions, imported models, user-class construction / processor call log; or the
@@ -35,7 +41,7 @@ import tempfile
 
 from harness import gen_grammar as G
 from harness.core import PY, REPO, VERIF, Check, InfraError
-from harness.c16_world import import_order, op_key
+from harness.c16_world import op_key
 
 # ----------------------------------------------------------------------------
 # template grammars
@@ -79,12 +85,43 @@ Val[skipws]: i=INT | w=Word;
 Word: /[a-z]+/;
 """
 
+# memoization-sensitive: the same sub-rule (`Key`) is tried at the same position without and with whitespace
+# skipping (Arpeggio's memo table is keyed by rule and position only), so a parser that memoizes although its
+# metamodel was configured not to (or the other way round) returns other results on this language
+WSMIX = r"""
+Config: entries+=Entry;
+Entry: Tight | Loose;
+Tight[noskipws]: key=Key '=' value=INT ';';
+Loose: key=Key ':' value=INT ';';
+Key: ID ('.' ID)*;
+Comment: /\/\*(.|\n)*?\*\//;
+"""
+
+# the entity language with its grammar split over files; several metamodels of a case may be compiled from
+# the *same paths* holding different versions (grammar files edited between two metamodel_from_file calls)
+GF_MAIN = r"""import values
+Model: imports*=Import items*=Item refs*=Ref;
+Import: 'import' importURI=STRING;
+Item: 'item' name=ID ('=' val=Value)? ('tag' tag=ID)? ('{' subs+=Item '}')?;
+Ref: 'ref' name=ID '->' target=[Item] (',' more+=[Item][','])?;
+Comment: /#.*$/;
+"""
+GF_VERSIONS = [
+    ({"values.tx": "Value: NUMBER | STRING | BOOL;\n"}, ["1", "-2.5", "7", "'s'", '"t u"', "true", "1e3", "0"]),
+    ({"values.tx": "Value: BOOL | ID | NUMBER | STRING;\n"}, ["1", "-2.5", "foo", "'s'", "false", "zed", "0"]),
+    ({"values.tx": "Value: STRING | INT | Flag;\nFlag: 'on' | 'off';\n"}, ["1", "7", "0", "'s'", "on", "off"]),
+    ({"values.tx": "import lits\nValue: Num | Str;\n", "lits.tx": "Num: INT;\nStr: STRING;\n"}, ["1", "7", "'s'", '"t"']),
+]
+
 NAMES = ["a", "b", "c", "d", "e1", "x", "y"]
 TRIGGERS = ["opboom", "initboom", "mpboom"]
 CLASS_VARIANTS = ["plain", "setattr", "slots", "initraise", "getattribute"]
 
 
-def ent_text(rng, imports=(), fail=None, big=False):
+ENT_VALS = ["1", "-2.5", "7", "'s'", '"t u"', "true", "1e3", "0", "false"]
+
+
+def ent_text(rng, imports=(), fail=None, big=False, vals=None):
     """A model text for the entity grammars; `fail` in None | 'syntax' | 'ref' | trigger name."""
     n = rng.randint(1, 5 if big else 3)
     names = rng.sample(NAMES, min(n, len(NAMES)))
@@ -95,7 +132,7 @@ def ent_text(rng, imports=(), fail=None, big=False):
     def item(nm, depth=0):
         s = "item " + nm
         if rng.chance(0.5):
-            s += " = " + rng.choice(["1", "-2.5", "13" if fail == "val13" else "7", "'s'", '"t u"', "true", "1e3", "0"])
+            s += " = " + ("13" if fail == "val13" and rng.chance(0.3) else rng.choice(vals or ENT_VALS))
         if rng.chance(0.5):
             s += " tag " + rng.choice(["foo", "Bar", "z"])
         if depth < 2 and rng.chance(0.25):
@@ -263,9 +300,150 @@ def gen_cfg(rng):
     return cfg, texts
 
 
-def mm_and_inputs(rng, k, files):
-    """One metamodel configuration + its inputs: list of op templates (without history position)."""
-    kind = rng.weighted([("ent", 5), ("entfiles", 3), ("calc", 3), ("wsg", 1), ("gen", 4)])
+def wsmix_text(rng, fail=None):
+    out = []
+    for _ in range(rng.randint(1, 4)):
+        key = ".".join(rng.sample(["a", "b", "c", "d"], rng.randint(1, 2)))
+        if rng.chance(0.5):
+            out.append(f"{key}={rng.randint(0, 9)};")          # Tight: no whitespace anywhere
+        else:
+            def sp():
+                return rng.choice(["", "", " ", "\t", "\n", " /* c */ "])
+            out.append(sp() + (sp() + "." + sp()).join(key.split(".")) + sp() + ":" + sp() + str(rng.randint(0, 9)) + sp() + ";")
+    text = "".join(out) + rng.choice(["", " ", "\n"])
+    if fail == "syntax":
+        i = rng.below(len(text))
+        text = text[:i] + rng.choice(["=", ";", " ", "x y", "."]) + text[i:]
+    return text
+
+
+def wsmix_cfg(rng):
+    return {"kind": "wsmix", "grammar": WSMIX, "opts": {"memoization": rng.chance(0.5)}, "classes": {}, "objprocs": {},
+            "modelprocs": [], "scope": None}
+
+
+# ----------------------------------------------------------------------------
+# probes: inputs on which the configurations living in one process disagree
+# ----------------------------------------------------------------------------
+import re as _re
+
+_WORD = _re.compile(r"[A-Za-z]+")
+_BOOLW = _re.compile(r"\b(true|false)\b")
+
+
+def _recase(rng, w):
+    c = rng.choice(["upper", "cap", "swapmid"])
+    if c == "upper":
+        return w.upper()
+    if c == "cap":
+        return w.capitalize() if w != w.capitalize() else w.upper()
+    i = rng.below(len(w))
+    return w[:i] + w[i].swapcase() + w[i + 1:]
+
+
+def probe_text(rng, kind, text, prefer):
+    """One variant of a valid input that tells configurations apart which must not influence each other:
+    letter case (ignore_case; the shared base-type matches BOOL / ID …), white space (skipws / ws / rule
+    modifiers / memoization across whitespace modes), keyword glued to the next word (autokwd)."""
+    how = rng.weighted([("boolcase", 4 if prefer.get("case") else 2), ("case", 3 if prefer.get("case") else 1),
+                        ("ws", 2 if prefer.get("ws") else 1), ("glue", 2 if prefer.get("kwd") else 1)])
+    if how == "boolcase":
+        ms = list(_BOOLW.finditer(text))
+        if ms:
+            m = rng.choice(ms)
+            return text[:m.start()] + _recase(rng, m.group()) + text[m.end():]
+        lit = rng.choice(["TRUE", "FALSE", "True", "False", "tRue", "FALSe"])
+        if kind in ("ent", "entfiles", "entsp", "entgf"):
+            return text.rstrip("\n") + f"\nitem pz = {lit}"
+        if kind == "calc":
+            return text + f" print b {lit};"
+        how = "case"
+    if how == "case":
+        ms = list(_WORD.finditer(text))
+        if ms:
+            m = rng.choice(ms)
+            return text[:m.start()] + _recase(rng, m.group()) + text[m.end():]
+        how = "ws"
+    if how == "glue":
+        ms = list(_re.finditer(r"(?<=[A-Za-z])[ \t\n]+(?=[A-Za-z0-9])", text))
+        if ms:
+            m = rng.choice(ms)
+            return text[:m.start()] + text[m.end():]
+        how = "ws"
+    ms = list(_re.finditer(r"[ \t\n]+", text))
+    if ms and rng.chance(0.6):
+        m = rng.choice(ms)
+        return text[:m.start()] + rng.choice(["\t", "\n", "  ", " \n\t", ""]) + text[m.end():]
+    i = rng.below(len(text) + 1)
+    return text[:i] + rng.choice([" ", "\t", "\n"]) + text[i:]
+
+
+# ----------------------------------------------------------------------------
+# model files in several directories, imports through a search path
+# ----------------------------------------------------------------------------
+def sp_tree(rng, tag, files):
+    """<tag>/lib[2]: directories of the provider's search path; <tag>/pa|pb|pc: project directories with a
+    main file each.  The same file name exists in several directories with other values (the item names
+    agree, so references resolve wherever the import is found); `extra.ent` exists in project directories
+    only, so importing it elsewhere must fail."""
+    libs = [f"{tag}/lib"] + ([f"{tag}/lib2"] if rng.chance(0.4) else [])
+    projs = [f"{tag}/p{c}" for c in "abc"[:rng.randint(2, 3)]]
+    code = [0]
+
+    def lib_text(name, imports=()):
+        code[0] += 1
+        b = name[0]
+        lines = [f'import "{i}"' for i in imports]
+        lines += [f"item {b}1 = {code[0]}", f"item {b}2 = {code[0]}.5 tag {rng.choice(['foo', 'Bar', 'z'])}"]
+        return "\n".join(lines) + "\n"
+
+    have = {d: set() for d in libs + projs}
+    have[libs[0]].add("units.ent")
+    have[projs[0]].update(["units.ent", "extra.ent"])
+    for d in libs + projs:
+        for n, pr in (("units.ent", 0.3), ("common.ent", 0.5 if d in libs else 0.2), ("extra.ent", 0.0 if d in libs else 0.25)):
+            if rng.chance(pr):
+                have[d].add(n)
+    for d in libs + projs:
+        for n in sorted(have[d]):
+            imps = ["units.ent"] if n == "common.ent" and rng.chance(0.5) else []
+            files[f"{d}/{n}"] = lib_text(n, imps)
+    visible = set().union(*[have[d] for d in libs])
+    mains = []
+    for i, d in enumerate(projs):
+        local = have[d] | visible
+        if i < 2:   # designed to be valid (on a fresh provider)
+            imps = rng.sample(sorted(local), rng.randint(1, min(2, len(local))))
+        else:
+            imps = rng.sample(["units.ent", "extra.ent", "common.ent"], rng.randint(1, 2))
+        lines = [f'import "{n}"' for n in imps]
+        lines += [f"item m{j + 1}" + rng.choice(["", " = 3", " tag foo"]) for j in range(rng.randint(1, 2))]
+        for j, n in enumerate(imps):
+            if rng.chance(0.8):
+                lines.append(f"ref r{j} -> {n[0]}{rng.randint(1, 2)}")
+        if i >= 1 and rng.chance(0.15):
+            lines.append("ref rx -> nope")
+        fn = f"{d}/main.ent"
+        files[fn] = "\n".join(lines) + "\n"
+        mains.append(fn)
+    # a project file importing a name that only another project directory has: fails unless something leaks
+    d = rng.choice(projs[1:])
+    other = sorted(n for n in have[projs[0]] if n not in have[d] and n not in visible)
+    if other:
+        fn = f"{d}/second.ent"
+        files[fn] = f'import "{rng.choice(other)}"\nitem s1\n'
+        mains.append(fn)
+    return {"libs": libs, "mains": mains}
+
+
+def mm_and_inputs(rng, k, files, ctx):
+    """One metamodel configuration + its inputs: list of op templates (without history position).
+    `ctx` carries what later metamodels of the case may share with earlier ones (a directory tree and the
+    search-path list of an import provider; the paths of a grammar that lives in files)."""
+    # a second member for a family that has only one so far is likely
+    kind = rng.weighted([("ent", 5), ("entfiles", 3), ("entsp", 7 if ctx.get("sp") and not ctx["sp"].get("second") else 3),
+                         ("entgf", 10 if ctx.get("gf") and len(ctx["gf"]["used"]) == 1 else 3), ("calc", 3), ("wsg", 1),
+                         ("wsmix", 1), ("gen", 4)])
     ops = []
     if kind == "gen":
         cfg, texts = gen_cfg(rng)
@@ -278,19 +456,56 @@ def mm_and_inputs(rng, k, files):
         cfg = wsg_cfg(rng)
         for f in [None, None, "syntax"]:
             ops.append(["str", k, wsg_text(rng, f)])
-    elif kind == "ent":
-        fqn = rng.chance(0.25)
+    elif kind == "wsmix":
+        cfg = wsmix_cfg(rng)
+        for f in [None, None, None, "syntax"]:
+            ops.append(["str", k, wsmix_text(rng, f)])
+    elif kind in ("ent", "entgf"):
+        fqn = rng.chance(0.25) and kind == "ent"
         cfg = ent_cfg(rng, fqn=fqn)
+        vals = None
+        if kind == "entgf":
+            # grammar in files; a later metamodel of the case usually takes the same paths with another version
+            fam = ctx.get("gf")
+            if fam is None or rng.chance(0.3):
+                fam = ctx["gf"] = {"dir": f"g/fam{k}", "used": []}
+            free = [v for v in range(len(GF_VERSIONS)) if v not in fam["used"]] or list(range(len(GF_VERSIONS)))
+            v = rng.choice(free)
+            fam["used"].append(v)
+            gfiles, vals = GF_VERSIONS[v]
+            cfg.update(kind="entgf", grammar=None, gmain=f"{fam['dir']}/main.tx",
+                       gfiles={f"{fam['dir']}/main.tx": GF_MAIN, **{f"{fam['dir']}/{n}": t for n, t in gfiles.items()}})
         fails = [None, None, "syntax", "ref", rng.choice(TRIGGERS + ["val13"])]
         for f in fails:
-            t = ent_text(rng, fail=f, big=rng.chance(0.3))
+            t = ent_text(rng, fail=f, big=rng.chance(0.3), vals=vals)
             if cfg.get("params") and rng.chance(0.5):
                 ops.append(["strp", k, t, {"flag": rng.choice([True, 1, "v"])}])
             else:
                 ops.append(["str", k, t])
+    elif kind == "entsp":
+        fqn = rng.chance(0.25)
+        cfg = ent_cfg(rng, fqn=fqn, files=True)
+        cfg["kind"] = "entsp"
+        tree = ctx.get("sp")
+        if tree is not None and rng.chance(0.6):
+            # a second metamodel over the same tree; its provider is handed the very same search-path list
+            cfg["sp_share"] = tree["key"]
+            tree["second"] = True
+        else:
+            tree = sp_tree(rng, f"m{k}", files)
+            tree["key"] = f"L{k}"
+            if rng.chance(0.5):
+                cfg["sp_share"] = tree["key"]
+                ctx["sp"] = tree
+        cfg["search_path"] = list(tree["libs"])
+        ops = [["file", k, fn] for fn in tree["mains"][:2]]
+        ops += [["file", k, fn] for fn in tree["mains"][2:]]
+        ops.append(["str", k, ent_text(rng, fail=None)])
+        ops.append(["str", k, ent_text(rng, fail=rng.choice(["syntax", "ref"]))])
     else:
         fqn = rng.chance(0.25)
         cfg = ent_cfg(rng, fqn=fqn, files=True)
+        cfg["kind"] = "entfiles"
         # a small directory: leaves (good / bad), middles importing leaves, mains
         tag = f"m{k}"
         leaves = []
@@ -319,45 +534,97 @@ def mm_and_inputs(rng, k, files):
     return cfg, ops
 
 
-def pick_inputs(rng, ops, n):
-    """keep n inputs per metamodel (every distinct load needs its own fresh-state reference process):
-    the first two (designed to be valid) and n-2 of the others (designed to fail)."""
-    if len(ops) <= n:
-        return ops
-    return ops[:2] + rng.sample(ops[2:], n - 2)
+def add_probes(rng, cfgs, all_ops):
+    """per metamodel one or two probe inputs, derived from its valid string inputs and from the options in
+    which the *other* configurations of the case differ from it"""
+    def opt(c, name, dflt):
+        return c["opts"].get(name, dflt)
+
+    out = []
+    for k, (cfg, ops) in enumerate(zip(cfgs, all_ops)):
+        others = [c for j, c in enumerate(cfgs) if j != k]
+        prefer = {
+            "case": any(bool(opt(c, "ignore_case", False)) != bool(opt(cfg, "ignore_case", False)) for c in others),
+            "ws": any((opt(c, "skipws", True), opt(c, "ws", None)) != (opt(cfg, "skipws", True), opt(cfg, "ws", None))
+                      or bool(opt(c, "memoization", False)) != bool(opt(cfg, "memoization", False)) for c in others),
+            "kwd": any(bool(opt(c, "autokwd", False)) != bool(opt(cfg, "autokwd", False)) for c in others),
+        }
+        strs = [o for o in ops[:3] if o[0] in ("str", "strp")] or [o for o in ops if o[0] in ("str", "strp")]
+        probes = []
+        for _ in range(2):
+            if not strs:
+                break
+            o = rng.choice(strs)
+            t = probe_text(rng, cfg["kind"], o[2], prefer)
+            if t != o[2] and all(t != q[2] for q in probes):
+                probes.append([o[0], o[1], t] + list(o[3:]))
+        out.append(probes)
+    return out
+
+
+def pick_inputs(rng, ops, probes, n):
+    """keep n inputs per metamodel (every distinct load needs its own fresh-state references): the first two
+    (designed to be valid), one probe, and n-3 of the others (designed to fail)."""
+    rest = ops[2:]
+    pr = probes[:1] if n >= 3 else []
+    k = max(0, n - 2 - len(pr))
+    return ops[:2] + (rest if len(rest) <= k else rng.sample(rest, k)) + pr
 
 
 def draw_input(rng, src):
-    """mostly valid inputs: the first two of a metamodel's inputs are drawn with probability 0.7"""
-    if len(src) > 2 and not rng.chance(0.7):
+    """mostly valid inputs: the first two of a metamodel's inputs are drawn with probability 0.65"""
+    if len(src) > 2 and not rng.chance(0.65):
         return rng.choice(src[2:])
     return rng.choice(src[:2])
 
 
 def gen_case(rng, tier):
-    files = {}
+    files, ctx = {}, {}
     npool = rng.weighted([(2, 3), (3, 4), (4, 3)])
-    pool, inputs = [], []
-    for k in range(npool):
-        cfg, ops = mm_and_inputs(rng.fork(f"mm{k}"), k, files)
-        pool.append(cfg)
-        inputs.append(pick_inputs(rng.fork(f"in{k}"), ops, 3))
+    nextra = rng.weighted([(0, 5), (1, 4), (2, 1)])
+    cfgs, all_ops = [], []
+    for k in range(npool + nextra):
+        cfg, ops = mm_and_inputs(rng.fork(f"mm{k}" if k < npool else f"x{k - npool}"), k, files, ctx)
+        cfgs.append(cfg)
+        all_ops.append(ops)
     # make sure memoization is mixed in most pools
     if npool >= 2 and rng.chance(0.8):
-        pool[0]["opts"]["memoization"] = True
-        pool[1]["opts"]["memoization"] = False
-    extras, xinputs = [], []
-    for j in range(rng.weighted([(0, 5), (1, 4), (2, 1)])):
-        cfg, ops = mm_and_inputs(rng.fork(f"x{j}"), npool + j, files)
-        extras.append(cfg)
-        xinputs.append(pick_inputs(rng.fork(f"xin{j}"), ops, 2))
+        cfgs[0]["opts"]["memoization"] = True
+        cfgs[1]["opts"]["memoization"] = False
+    # ... and that case-insensitive and case-sensitive metamodels meet in about half of the cases
+    if rng.chance(0.4) and not any(c["opts"].get("ignore_case") for c in cfgs):
+        rng.choice(cfgs)["opts"]["ignore_case"] = True
+    probes = add_probes(rng.fork("probes"), cfgs, all_ops)
+    pool, extras = cfgs[:npool], cfgs[npool:]
+    inputs = [pick_inputs(rng.fork(f"in{k}"), all_ops[k], probes[k], 4) for k in range(npool)]
+    xinputs = [pick_inputs(rng.fork(f"xin{j}"), all_ops[npool + j], probes[npool + j], 3) for j in range(nextra)]
+    # metamodels that share something a load may write to: the search-path list of their import providers,
+    # the paths of their grammar files
+    def related(k):
+        def key(c):
+            return (c.get("sp_share"), os.path.dirname(c["gmain"]) if c.get("gmain") else None)
+        me = key(cfgs[k])
+        return [j for j, c in enumerate(cfgs) if j == k or any(x is not None and x == y for x, y in zip(me, key(c)))]
+
     histories = []
     nh = 5 if tier == "quick" else 6
     for h in range(nh):
         r = rng.fork(f"h{h}")
         n = r.randint(3, 12)
         ops, created = [], set()
+        # every other history dwells on one metamodel (and those related to it): state that a load leaves behind in
+        # the metamodel's own objects (providers, repositories, blueprint) needs several loads of the same one
+        focus = related(r.below(len(cfgs))) if h % 2 == 1 or r.chance(0.2) else None
         for _ in range(n):
+            if focus and r.chance(0.8):
+                k = r.choice(focus)
+                if k >= npool and k - npool not in created:
+                    created.add(k - npool)
+                    ops.append(["new", k])
+                    continue
+                src = inputs[k] if k < npool else xinputs[k - npool]
+                ops.append(r.choice(src))
+                continue
             if extras and len(created) < len(extras) and r.chance(0.2):
                 j = r.choice([j for j in range(len(extras)) if j not in created])
                 created.add(j)
@@ -368,7 +635,7 @@ def gen_case(rng, tier):
             src = inputs[k] if k < npool else xinputs[k - npool]
             # repeat an earlier op of the history now and then (same load twice)
             loads = [o for o in ops if o[0] != "new"]
-            if loads and r.chance(0.25):
+            if loads and r.chance(0.2):
                 ops.append(r.choice(loads))
             else:
                 ops.append(draw_input(r, src))
@@ -439,6 +706,7 @@ def run_world(case, lean=True):
     tmp = tempfile.mkdtemp(prefix="c16_")
     try:
         for fn, text in case.get("files", {}).items():
+            os.makedirs(os.path.dirname(os.path.join(tmp, fn)), exist_ok=True)
             with open(os.path.join(tmp, fn), "w") as f:
                 f.write(text)
         p = _server()
@@ -511,6 +779,9 @@ class Prop(Check):
         "History.C16_same_as_fresh_walk",
         "History.C16_walk_sep_false",
         "History.C16_creation_frame",
+        "History.C16_imports_provider_unchanged",
+        "History.C16_imports_history",
+        "History.C16_imports_alias_false",
     ]
     DRIVER = "Drivers/History.lean"
     QUICK_CASES = 72          # x 5 histories = 360 histories, ~2600 operations
@@ -519,10 +790,15 @@ class Prop(Check):
     PROCS_THOROUGH = int(os.environ.get("C16_PROCS", "16"))
     CASE_TIMEOUT = 400
     MAX_INCONCLUSIVE = 0.1  # more than this fraction of unfinished cases: infrastructure trouble (exit 2)
-    RULE = ("pools of 2-4 metamodels (+0-2 created inside the history) x 5 histories of 3-12 loads (strings / files, valid / "
-            "syntax error / unknown reference / failing user __init__, object processor, model processor / missing import); "
-            "non-trivial = a history in which a successful load follows a failed load of the same metamodel or a load of "
-            "another metamodel, and every outcome was compared with both fresh-state references")
+    RULE = ("pools of 2-4 metamodels (+0-2 created inside the history; grammars from strings and from files — several metamodels "
+            "compiled from the same paths holding other versions; options memoization / ignore_case / skipws / ws / autokwd "
+            "mixed within a pool; import providers with a search path, two providers sharing one list object) x 5 histories of "
+            "3-12 loads, every other history dwelling on one metamodel and those related to it (strings / files in several "
+            "directories, valid / syntax error / unknown reference / failing user __init__, object processor, model processor / "
+            "missing import / probe = a valid input changed in letter case, white space or keyword spacing, i.e. where the "
+            "configurations living in the process disagree); non-trivial = a history in which a successful load follows a "
+            "failed load of the same metamodel or a load of another metamodel, and every outcome was compared with the "
+            "fresh-state references (solo reference for every distinct load)")
     MODELLED = ("hand-modelled (TextxVerif/Load/History.lean): the state that survives a load — Arpeggio memo caches on the "
                 "(partly shared) rule objects, parser blueprint / clone containers with copy.copy aliasing (model.py clone), "
                 "user-class instrumentation counters and collected attributes (model.py _replace/_restore_user_attr_methods, "
@@ -534,7 +810,13 @@ class Prop(Check):
                 "Tie X: every history replayed by the Lean machine on the dumped real parser models; compared: parse tree / "
                 "syntax-error position of every load, number of memo-cache stores, instrumentation counts seen by user "
                 "__init__, and after every operation cache sizes, blueprint containers, clone aliasing, instrumentation "
-                "leftovers, grammar-parser cache, base-rule owner. Not exhibited: CPython object identity / GC, scope "
+                "leftovers, grammar-parser cache, base-rule owner; files parsed by a model_from_file (TextxVerif/Load/SearchPath.lean: "
+                "mirror of ImportURI._load_referenced_models / load_model_using_search_path, computed by the driver from the "
+                "directory tree and the provider's search path) against the implementation's repository order; the parser's "
+                "memoization flag against the configured one. Implementation only (direct oracle): the configuration fingerprint "
+                "of every existing metamodel after every operation (parser options, compiled parser model incl. regular "
+                "expressions and flags of the shared base-type rules, class table) equals the one of the same configuration "
+                "created alone on a fresh state. Not exhibited: CPython object identity / GC, scope "
                 "providers with own state (GlobalRepo), metamodel-global model repository (shared by design, C17), "
                 "registered languages / `reference` statements, debug output")
     ASSUMPTIONS = [
@@ -543,8 +825,10 @@ class Prop(Check):
         "under this premise (`walkOK`, evaluated by the Lean driver on every dumped pool and reported as a disagreement when "
         "false) clearing the memo caches by walking the parser model — what Arpeggio does and what the driver's machine "
         "`realWalk` does — is proved equal to dropping every entry (C16_walk_run, C16_stores_reachable)",
-        "the compiled parser model of a grammar does not depend on the memoization flag of the cached grammar parser "
-        "(the grammar parser is created by the first metamodel of a debug class): checked on the implementation by the solo reference",
+        "the compiled parser model of a grammar does not depend on the process state at creation time (memoization flag of the "
+        "cached grammar parser, metamodels created before, earlier content of the grammar's files): the Lean world takes the "
+        "parser models as given; checked on the implementation by comparing the configuration fingerprint of every metamodel "
+        "after every operation with the one of its solo creation, and by the solo reference of every load",
     ]
 
     def gen(self, rng, n, tier):
@@ -557,6 +841,19 @@ class Prop(Check):
         return run_world(case, lean=True)
 
     # ---- correspondence with the Lean machine -------------------------------------------------
+    @staticmethod
+    def fsys_of(case):
+        """the model files of the case for the Lean driver: [[directory number, base name, [importURI…]]…]"""
+        from harness.c16_world import IMPORT_RE
+
+        names = sorted(case.get("files") or {})
+        dirs = sorted({os.path.dirname(f) for f in names} | {d for c in case["pool"] + (case.get("extras") or [])
+                                                              for d in (c.get("search_path") or [])})
+        dno = {d: i for i, d in enumerate(dirs)}
+        rows = [[dno[os.path.dirname(f)], os.path.basename(f), [m.group(2) for m in IMPORT_RE.finditer(case["files"][f])]]
+                for f in names]
+        return names, dno, rows
+
     def lean_ops(self, case, ops, run, index):
         """the operations of one history for the Lean machine (pool creation first), or None when the
         mirror cannot take the history."""
@@ -567,19 +864,24 @@ class Prop(Check):
             if op[0] == "new" and not st["out"].get("created"):
                 return None  # the machine assumes that `new` succeeds
         lops = [{"new": k} for k in range(npool)]
+        names, dno, _ = self.fsys_of(case)
+        cfgs = case["pool"] + (case.get("extras") or [])
         for op, st in zip(ops, run["hist"]):
             if op[0] == "new":
                 lops.append({"new": op[1]})
                 continue
-            if op[0] == "file":
-                texts = [case["files"][f] for f in import_order(case["files"], op[2]) if f in case["files"]]
-            else:
-                texts = [op[2]]
+            src = None
             if "skip" in st["out"]:
-                files = []
+                src = {"files": []}
+            elif op[0] == "file":
+                if op[2] not in case["files"]:
+                    return None
+                sp = cfgs[op[1]].get("search_path")
+                src = {"main": names.index(op[2]), "sp": None if sp is None else [dno[d] for d in sp],
+                       "inpOf": [index.get((op[1], case["files"][f])) for f in names]}
             else:
                 try:
-                    files = [index[(op[1], t)] for t in texts]
+                    src = {"files": [index[(op[1], op[2])]]}
                 except KeyError:
                     return None
             ph = phase_of(st["out"])
@@ -587,7 +889,7 @@ class Prop(Check):
                    "modelproc": "modelproc"}.get(ph, "resolve")
             # a failing user __init__: the machine reports the counts up to model j; which model it was is not
             # observable from outside, so ask for all of them and compare a prefix
-            lops.append({"load": op[1], "files": files, "buildFail": False, "fin": fin, "j": max(0, len(files) - 1)})
+            lops.append(dict(src, load=op[1], buildFail=False, fin=fin, j=len(names) + 1))
         return lops
 
     def model_req(self, case, obs):
@@ -603,7 +905,10 @@ class Prop(Check):
         mms = []
         for k, m in enumerate(pd["mms"]):
             mms.append(None if m is None else {
-                "top": m["top"], "comments": m["comments"], "memo": m["memo"], "skipws": m["skipws"], "ws": m["ws"],
+                # the flag the metamodel was *configured* with: a parser that memoizes against its configuration
+                # (e.g. because it inherited the flag of a cached grammar parser) shows up in the number of stores
+                "top": m["top"], "comments": m["comments"], "memo": bool(cfgs[k]["opts"].get("memoization", False)),
+                "skipws": m["skipws"], "ws": m["ws"],
                 "debug": bool(cfgs[k]["opts"].get("debug", False)), "user": m["user"]})
         inps, index = [], {}
         for k, lst in pd["toks"].items():
@@ -622,12 +927,18 @@ class Prop(Check):
         obs["_lean_idx"] = idx
         if not hists:
             return None
-        return {"op": "case", "nodes": pd["nodes"], "mms": mms, "inps": inps, "hists": hists}
+        return {"op": "case", "nodes": pd["nodes"], "mms": mms, "inps": inps, "fsys": self.fsys_of(case)[2], "hists": hists}
 
     def compare(self, case, obs, out):
         if "runs" not in out:
             return f"model rejected the request: {str(out)[:200]}"
         npool = len(case["pool"])
+        cfgs = list(case["pool"]) + list(case.get("extras") or [])
+        for k, m in enumerate((obs["runs"][0].get("lean") or {}).get("mms") or []):
+            if m is not None and bool(m["memo"]) != bool(cfgs[k]["opts"].get("memoization", False)):
+                return (f"mm{k}: the parser blueprint has memoization={m['memo']}, the metamodel was configured with "
+                        f"memoization={bool(cfgs[k]['opts'].get('memoization', False))}")
+        names = self.fsys_of(case)[0]
         for h, ans in zip(obs.get("_lean_idx", []), out["runs"]):
             ops, run = case["histories"][h], obs["runs"][h]
             if "outs" not in ans:
@@ -644,13 +955,28 @@ class Prop(Check):
                     return f"{where}: surviving state differs: {d}"
                 if op[0] == "new":
                     continue
-                d = self.out_diff(st, louts[i], run["lean"]["trees"][i])
+                d = self.out_diff(st, louts[i], run["lean"]["trees"][i]) or self.order_diff(st["out"], louts[i], names)
                 if d:
                     return f"{where}: {d}"
             # the machine run by the driver (`realWalk`) is the machine of the history theorems only under this premise
             if ans.get("walkOK") is not True:
                 return (f"history {h}: a repetition reachable from a parser model has a separator that is not a Match object "
                         f"(walkOK = {ans.get('walkOK')}): Arpeggio's cache walk does not follow `sep`, the premise of C16_walk_run fails")
+        return None
+
+    @staticmethod
+    def order_diff(out, lo, names):
+        """files parsed by a model_from_file: the implementation's repository (insertion order = parse order)
+        against `History.loadOrder` (importer's directory first, then the provider's search path)"""
+        if "order" not in lo:
+            return None
+        want = [names[i] for i in lo["order"]]
+        if "ok" in out and "order" in out["ok"]:
+            if not lo["found"] or out["ok"]["order"] != want:
+                return (f"files parsed: implementation {out['ok']['order']}, model {want}"
+                        + ("" if lo["found"] else " then an import that is not found"))
+        elif out.get("other") in ("FileNotFoundError", "OSError", "IOError") and lo["found"]:
+            return f"implementation does not find an import ({out.get('msg')}), the model finds every file: {want}"
         return None
 
     @staticmethod
@@ -724,12 +1050,24 @@ class Prop(Check):
             self._note_inconclusive(obs["inconclusive"])
             return None
         npool = len(case["pool"])
+        solo_fp = obs.get("solo_fp") or {}
+        drift = None
+        # the pool itself is a history of creations: each metamodel must be what it is when created alone
+        d = self.fp_drift(obs.get("hid0") or {}, solo_fp, {})
+        if d:
+            drift = f"after creating the pool {['mm%d' % k for k in range(npool)]}: {d}"
         for h, (ops, run) in enumerate(zip(case["histories"], obs["runs"])):
             if "crash" in run:
                 self._note_inconclusive("history process: " + str(run["crash"])[:200])
                 continue  # the forked history process died (memory / signal): nothing to compare
+            last = dict((obs.get("hid0") or {}).get("fp_full") or {})
             for i, (op, st) in enumerate(zip(ops, run["hist"])):
                 out = st["out"]
+                if drift is None:
+                    d = self.fp_drift(st["hid"], solo_fp, last)
+                    if d:
+                        what = f"[new mm{op[1]}]" if op[0] == "new" else self.op_view(op)
+                        drift = f"history {h} op {i} {what} after {self.prefix(ops, i)}: {d}"
                 if op[0] == "new":
                     solo = obs["mm_solo"].get(str(op[1]), "absent")
                     if solo != "absent" and (out["err"] != solo):
@@ -739,14 +1077,40 @@ class Prop(Check):
                 if "skip" in out or out.get("other") == "Timeout":
                     continue  # a time-out is an infrastructure matter, never evidence about the property
                 key = op_key(op)
-                for name, ref in (("the pool-created state", obs["r1"].get(key) if op[1] < npool else None),
-                                  ("a fresh state with only this metamodel", obs["r2"].get(key)),
+                for name, ref in (("a fresh state with only this metamodel", obs["r2"].get(key)),
+                                  ("the pool-created state", obs["r1"].get(key) if op[1] < npool else None),
                                   ("a new interpreter with only this metamodel", obs.get("r3", {}).get(key))):
                     if ref is None or ref.get("other") == "Timeout" or "crash" in ref:
                         continue
                     if ref != out:
                         return (f"history {h} op {i} {self.op_view(op)} after {self.prefix(ops, i)}: "
                                 f"{self.diff(out, ref)} (reference: {name})")
+        # no load differs: a metamodel that is not what its configuration gives when created alone is reported
+        # on its own (the loads of the case just did not show it)
+        return drift
+
+    @staticmethod
+    def fp_drift(hid, solo_fp, last):
+        """the configuration of every existing metamodel (parser options, compiled parser model incl. the
+        regular expressions of the shared base-type rules, class table) equals the one of the same
+        configuration created alone on a fresh process state — after every operation"""
+        last.update(hid.get("fp_full") or {})
+        for k, fid in enumerate(hid.get("fp") or []):
+            ref = solo_fp.get(str(k))
+            if fid is None or ref is None or fid == ref["id"]:
+                continue
+            cur = last.get(str(k)) or {}
+            parts = []
+            for sec in ("flags", "regex", "parser", "classes"):
+                a, b = cur.get(sec), ref.get(sec)
+                if a != b:
+                    if isinstance(a, dict) and isinstance(b, dict):
+                        ks = sorted(x for x in set(a) | set(b) if a.get(x) != b.get(x))[:4]
+                        parts.append(f"{sec} " + ", ".join(f"{x}: {a.get(x)!r} (fresh: {b.get(x)!r})" for x in ks))
+                    else:
+                        parts.append(f"{sec} differ")
+            return (f"metamodel mm{k} is not the metamodel its configuration gives on a fresh process state: "
+                    + ("; ".join(parts) or f"fingerprint {fid} vs {ref['id']}"))
         return None
 
     @staticmethod
@@ -764,7 +1128,16 @@ class Prop(Check):
         while k < min(len(sa), len(sb)) and sa[k] == sb[k]:
             k += 1
         lo = max(0, k - 60)
-        return f"in history …{sa[lo:k + 90]}… but fresh …{sb[lo:k + 90]}…"
+
+        def brief(o):
+            if "ok" in o:
+                return "a model"
+            if "err" in o:
+                return f"{o['err']['cls']} {o['err'].get('file')}:{o['err'].get('line')}:{o['err'].get('col')} {o['err']['msg'][:60]!r}"
+            return f"{o.get('other')} {str(o.get('msg'))[:60]!r}"
+
+        return (f"the history gives {brief(a)}, the fresh state {brief(b)}; first difference: "
+                f"in history …{sa[lo:k + 90]}… but fresh …{sb[lo:k + 90]}…")
 
     def nontrivial(self, case, obs):
         if "runs" not in obs:
@@ -809,9 +1182,16 @@ class Prop(Check):
 
         ph, kinds = Counter(), Counter()
         hist = ops = compared_r1 = compared_r2 = lean_h = memo_loads = multi = after_fail = 0
+        sp_loads = sp_dirs2 = fp_cmp = mixed_ic = same_paths = shared_lists = 0
         for c, o, m in zip(cases, obs, outs):
-            for cfg in c["pool"] + c.get("extras", []):
+            allc = c["pool"] + c.get("extras", [])
+            for cfg in allc:
                 kinds[cfg.get("kind")] += 1
+            mixed_ic += len({bool(x["opts"].get("ignore_case")) for x in allc}) == 2
+            gm = [x["gmain"] for x in allc if x.get("gmain")]
+            same_paths += len(gm) != len(set(gm))
+            sh = [x["sp_share"] for x in allc if x.get("sp_share")]
+            shared_lists += len(sh) != len(set(sh))
             if "runs" not in o:
                 continue
             lean_h += len(m.get("runs", [])) if isinstance(m, dict) else 0
@@ -819,8 +1199,15 @@ class Prop(Check):
             for hops, run in zip(c["histories"], o["runs"]):
                 hist += 1
                 failed = set()
+                dirs_seen = {}
                 for op, st in zip(hops, run.get("hist", [])):
                     ops += 1
+                    fp_cmp += sum(1 for x in (st["hid"].get("fp") or []) if x is not None)
+                    if op[0] == "file" and allc[op[1]].get("search_path") is not None:
+                        sp_loads += 1
+                        ds = dirs_seen.setdefault(allc[op[1]].get("sp_share") or op[1], set())
+                        sp_dirs2 += bool(ds - {os.path.dirname(op[2])})
+                        ds.add(os.path.dirname(op[2]))
                     if op[0] == "new":
                         ph["new"] += 1
                         continue
@@ -839,7 +1226,13 @@ class Prop(Check):
         return {"inconclusive": getattr(self, "_inconclusive", 0), "histories": hist, "operations": ops, "outcome_phases": dict(ph), "metamodel_kinds": dict(kinds),
                 "compared_with_pool_state_reference": compared_r1, "compared_with_solo_reference": compared_r2,
                 "histories_replayed_by_lean": lean_h, "loads_with_memo_cache_stores": memo_loads,
-                "file_loads": multi, "successful_loads_after_a_failed_load_of_the_same_metamodel": after_fail}
+                "file_loads": multi, "successful_loads_after_a_failed_load_of_the_same_metamodel": after_fail,
+                "file_loads_through_a_search_path": sp_loads,
+                "of_these_after_a_load_from_another_directory_through_the_same_list": sp_dirs2,
+                "metamodel_fingerprints_compared_with_solo_creation": fp_cmp,
+                "cases_mixing_ignore_case_and_case_sensitive_metamodels": mixed_ic,
+                "cases_with_metamodels_compiled_from_the_same_grammar_paths": same_paths,
+                "cases_with_providers_sharing_a_search_path_list": shared_lists}
 
     def extra_search(self, rng, tier, broken):
         return [gen_case(rng.fork(i), tier) for i in range(40 if tier == "quick" else 200)]
